@@ -5,7 +5,9 @@
   parent, every mark set is canonical (C14) — recursively.  Helper lemmas: Proofs/Valid.lean.
 -/
 import PM.Content
+import PM.CreateFill
 import Proofs.Valid
+import Proofs.MkNode
 namespace PM.C07
 open PM
 
@@ -132,5 +134,57 @@ theorem compatibleContent_symm (S : Schema) (a b : TypeId) :
   rw [Dfa.compatible_symm (S.dfa a) (S.dfa b)]
   congr 1
   exact Bool.eq_iff_iff.mpr (by simp only [beq_iff_eq]; exact eq_comm)
+
+/-- **create_checked(attrs, content, marks)** raises (ValueError) when `valid_content(content)` is false —
+    whatever the attributes — and otherwise does what `create` does: the ValueError of `compute_attrs` for a
+    required attribute without a value, else the node of that type with the computed attributes, the
+    given content and the marks sorted by `Mark.set_from`.  (`textType`: called on the text type the code
+    returns a plain `Node` of the text type, which is not a value of the model; see PM/CreateFill.lean.) -/
+theorem createChecked_iff (S : Schema) (t : TypeId) (attrs : Attrs) (content : List Node) (marks : Marks) :
+    (S.validContent t content = false → S.createChecked t attrs content marks = .raises .valueError) ∧
+    (S.validContent t content = true →
+      S.createChecked t attrs content marks =
+        match computeAttrs (S.nodeType t).attrs attrs with
+        | .error e => .raises e
+        | .ok a => if (S.nodeType t).isText then .textType else .node (S.mkNode t a (setFrom marks) content)) := by
+  unfold Schema.createChecked
+  constructor <;> intro h <;> simp only [h] <;> rfl
+
+/-- the same as an equivalence, for attributes that can be computed and a type that is not the text type:
+    `create_checked` fails — with a ValueError — exactly when the content is not valid, and otherwise
+    returns a node of type `t` with exactly the given children, which passes `check()` as soon as the
+    children do and the marks form a canonical set -/
+theorem createChecked_fails_iff (S : Schema) (t : TypeId) (attrs : Attrs) (content : List Node) (marks : Marks)
+    (a : Attrs) (ha : computeAttrs (S.nodeType t).attrs attrs = .ok a) (ht : (S.nodeType t).isText = false) :
+    (S.createChecked t attrs content marks = .raises .valueError ↔ S.validContent t content = false) ∧
+    (∀ e, S.createChecked t attrs content marks = .raises e → e = .valueError) ∧
+    (S.validContent t content = true →
+      ∃ n, S.createChecked t attrs content marks = .node n ∧ S.tyOf n = t ∧ n.kids = content ∧
+        n.attrs = a ∧ n.marks = setFrom marks ∧
+        (S.checkNode n = (canonicalMarks S (setFrom marks) && S.checkKids content))) := by
+  have hform : S.createChecked t attrs content marks =
+      if S.validContent t content then .node (S.mkNode t a (setFrom marks) content) else .raises .valueError := by
+    unfold Schema.createChecked
+    cases S.validContent t content <;> simp [ha, ht]
+  rw [hform]
+  cases hv : S.validContent t content
+  · simp
+  · refine ⟨by simp, by simp, fun _ => ⟨_, rfl, mkNode_tyOf .., mkNode_kids .., mkNode_attrs .., mkNode_marks .., ?_⟩⟩
+    rw [mkNode_check, hv]; simp
+
+private def mkNT (name : String) (isLeaf : Bool) (dfa : Array DfaState) : NodeType :=
+  { name := name, isText := false, isInline := isLeaf, isLeaf := isLeaf, isAtom := isLeaf,
+    inlineContent := false, isolating := false, defining := false, code := false,
+    dfa := dfa, markSet := some [], attrs := [] }
+
+private def Sp : Schema :=
+  { nodes := #[mkNT "p" false #[⟨true, [(1, 0)]⟩], mkNT "br" true #[⟨true, []⟩]],
+    marks := #[], top := 0, textTy := 9 }
+
+/-- non-vacuity: a paragraph-like type (content `br*`) takes a `br`, the leaf type `br` does not -/
+example :
+    Sp.createChecked 0 [] [.leaf 1 [] []] [] = .node (.elem 0 [] [] [.leaf 1 [] []]) ∧
+    Sp.createChecked 1 [] [.leaf 1 [] []] [] = .raises .valueError := by
+  decide
 
 end PM.C07
